@@ -1,6 +1,6 @@
 (** * C19: every bound the macro adds on its own is a lifetime, an absolute path, or a user-supplied trait name *)
 From Coq Require Import List String Ascii Bool Arith Lia.
-From Entrait Require Import Tok Syn Opts Split FnParams Convert Codegen Expand Proj Proj2 Proj3.
+From Entrait Require Import Tok Syn Opts Split FnParams Convert Codegen Expand Proj Proj2 Proj3 ProjSide.
 From Entrait.Proofs Require Import Base Shapes PC05.
 Import ListNotations.
 Local Open Scope string_scope.
@@ -417,15 +417,6 @@ Qed.
 (** ** the view *)
 (** the one case the predicate misjudges: concrete dependencies, and the function's own first non-lifetime
     generic parameter is called [EntraitT] and has a bound that is not an absolute path *)
-Definition c19_clash (i : input) : bool :=
-  match i with
-  | InFn _ s _ => match lifted_params (s_gen s) with
-                  | p :: _ => is_prefix [TId "EntraitT"] (print_gparam p) && negb (c19_bounds_ok [] (print_gparam p))
-                  | [] => false
-                  end
-  | _ => false
-  end.
-
 Lemma c05_clash_c19 i : c05_clash i = false -> c19_clash i = false.
 Proof.
   destruct i; try reflexivity. cbn [c05_clash c19_clash]. destruct (lifted_params (s_gen s)); [reflexivity|].
@@ -481,3 +472,10 @@ Lemma no_entrait_t_no_clash19 h s body :
   forallb (fun p => negb (is_tparam "EntraitT" p)) (p_items (g_params (s_gen s))) = true ->
   c19_clash (InFn h s body) = false.
 Proof. intros H. apply c05_clash_c19. exact (no_entrait_t_no_clash h s body H). Qed.
+
+(** the guarded view the checker runs *)
+Lemma c19_view v attr i items :
+  expand_items v attr i = Ok items -> good (view_C19g (mkCtx v attr i) items).
+Proof.
+  intros H. unfold view_C19g. cbn [x_input]. destruct (c19_clash i) eqn:E; [exact good_na | exact (c19_view_partial _ _ _ _ H E)].
+Qed.
